@@ -6,7 +6,7 @@ from ..analysis import (backslice, comparisons, branch_of, dominated_region, agg
                         forward_locals, upvar_operand, switch_on_result_of)
 from ..callgraph import CallGraph
 from ..facts import op_local, op_const, place_fields
-from .common import stdin_paths_body
+from .common import stdin_paths_body, err_handling
 
 DOC = {
     'explanation': 'Schedules are out of static reach. Decided necessary conditions: the result of group_files passes a stable total ordering of groups and the per-group path '
@@ -20,6 +20,7 @@ DOC = {
         'C13.R2': 'rehash: drop(original tx) dominates the recv loop; tasks capture a Sender clone; the loop leaves only on Err(recv); every received item is added; the throttle guard is acquired before spawn and dropped inside the task',
         'C13.R3': 'no HashMap/HashSet/DashMap iteration reachable from group_files/write_report (named exceptions)',
         'C13.R4': 'each FilePos-FileLen / FileLen-FileLen is dominated by a comparison of the same operands or its right operand is clamped by min(_, left)',
+        'C13.R11': 'every run terminates, whatever the transform program does with $OUT: transform::execute opens its own write end of the named pipe before it spawns the child and before the reader opens the pipe, hands it to the thread that waits for the child, and that thread closes it after the child has exited (no second look-up of the pipe by its path); hash_transformed reports a pipe that was replaced',
         'C13.R10': 'the number of files that can be hashed does not depend on a race between the hashing thread and a helper thread: blocking helper threads are joined (re-evaluates C19.R8)',
         'C13.R9': 'every run terminates: a pipe handed to the transform program as its standard output is read - the Output variants under which build_command uses Stdio::piped() are among those under which execute moves child.stdout into the stream it returns (otherwise the child blocks on a full pipe while fclones waits for it)',
         'C13.R8': 'with --follow-links the set of scanned files does not depend on which route reaches an entry first (order of the input paths, --threads): the visited mark is level-aware, made when the directory is really read, after the route-specific tests, and links re-visit like directories; the ignore rules of a route are part of the visited record (re-evaluates C09.R11 and C09.R15)',
@@ -42,6 +43,7 @@ def run(ctx):
     r6(ctx)
     r7(ctx)
     r9(ctx)
+    r11(ctx)
     from .common import reevaluate
     from . import c19
     reevaluate(ctx, 'C13.R10', c19.r8)
@@ -440,6 +442,57 @@ def r9(ctx):
     ctx.check(not unread, rule, bc.path + '|piped-stdout-is-read', pip[0].where(), 'the child\'s stdout is a pipe only when execute reads it (piped under %s, read under %s)' % (sorted(piped), sorted(read)),
               'with Output::%s the child gets a pipe as its standard output that nobody reads (execute takes the stream only under %s): a program that prints more than the pipe buffers (64 KiB) blocks in '
               'write(), fclones blocks in wait() - `group --in-place --transform "tool $IN"` with a chatty tool never ends, holding its permits, so the whole run hangs' % (', '.join(unread), sorted(read)))
+
+
+def r11(ctx):
+    """The reader of the named pipe cannot wait for ever: a write end exists before the reader opens the pipe and lives until the child has exited,
+    whatever the child does with the PATH of the pipe."""
+    rule = 'C13.R11'
+    lib = ctx.lib
+    b = ctx.need_body(rule, 'transform::execute')
+    if b is None:
+        return
+    sp = b.calls(r'^std::process::Command::spawn$')
+    rd = [c for c in b.calls(r'^std::fs::File::open$')]
+    if not ctx.floor(rule, 'spawn / File::open in transform::execute', min(len(sp), len(rd)), 1, b.where()):
+        return
+    # the open that gives fclones its own write end: OpenOptions with write(true) on the pipe path, in the body of execute (not in the thread)
+    keep = [c for c in b.calls(r'OpenOptions::open$') if backslice(b, [c.args[0]]).has_call(r'OpenOptions::write$') and backslice(b, [c.args[-1]]).has_call(r'Output::pipe_path$')]
+    # (the open sits in the Some arm of pipe_path(): it precedes the spawn and the reader's open, it need not dominate them)
+    ok_keep = bool(keep) and sp[0].bb in b.reachable(keep[0].bb) and keep[0].bb not in b.reachable(sp[0].bb) and all(r.bb in b.reachable(keep[0].bb) for r in rd)
+    # it is handed to the thread that waits for the child (closure upvar), which does not look the pipe up by its path again
+    thread_cl = [lib.body(cp) for cp in lib.closures_of(b.path) if lib.body(cp).calls(r'Child::wait$')]
+    by_path = [c for x in thread_cl for c in x.calls(r'OpenOptions::open$|^std::fs::File::open$|File::create$')]
+    moved = False
+    if keep:
+        holders = forward_locals(b, keep[0].dest[0]) | {keep[0].dest[0]}
+        for blk in b.blocks:
+            for st in blk['stmts']:
+                if st['rv']['k'] == 'agg' and st['rv'].get('ak') == 'closure' and any(op_local(o) in holders for o in st['rv']['ops']):
+                    moved = True
+        # through the Ok payload of `?`
+        for c in b.calls(r'as std::ops::Try>::branch$'):
+            if op_local(c.args[0]) in holders:
+                holders |= forward_locals(b, c.dest[0]) | {c.dest[0]}
+        for _ in range(4):
+            for blk in b.blocks:
+                for st in blk['stmts']:
+                    if st['rv']['k'] in ('use', 'agg') and any(op_local(o) in holders for o in ([st['rv'].get('op')] if st['rv']['k'] == 'use' else st['rv']['ops']) if isinstance(o, dict)):
+                        holders.add(st['p'][0])
+                        if st['rv']['k'] == 'agg' and st['rv'].get('ak') == 'closure':
+                            moved = True
+    ctx.check(ok_keep and moved and not by_path, rule, b.path + '|pipe-kept-open-until-exit', (keep[0].where() if keep else rd[0].where()),
+              'a write end of the named pipe is opened before the child is spawned and before the reader opens the pipe, and is closed by the thread that waits for the child',
+              'the reader opens the named pipe and blocks until somebody opens THAT pipe for writing; the rescue for a child that never does is an open of the pipe\'s PATH after the child has exited - '
+              'a program that replaces $OUT instead of writing to it (unlink + create, temporary file + rename: install, cp --remove-destination, mv, every "atomic" writer) leaves a regular file '
+              'there, the rescue opens that file, and the hashing task waits for ever: `group --transform "install -m 644 $IN $OUT"` never ends')
+    # and a pipe that was replaced is reported, not hashed as empty output
+    ht = lib.body("hasher::FileHasher::<'_>::hash_transformed")
+    chk = ht.calls(r'Execution::check_output$') if ht is not None else []
+    cat = err_handling(ht, chk[0])[0] if chk else None
+    ctx.check(bool(chk) and cat in ('PROPAGATED', 'RETURNED', 'ERR-RETURNED'), rule, 'hasher::hash_transformed|replaced-pipe-reported', (chk[0].where() if chk else (ht.where() if ht else b.where())),
+              'after the child has exited the pipe is checked to be still there; otherwise the file fails with a message',
+              'nothing notices that the program removed or replaced the pipe: the (empty) output read from it is hashed and every such file becomes a duplicate of every other')
 
 
 def r7(ctx):
